@@ -221,7 +221,9 @@ fn run(ctx: &mut Ctx) {
             ap.copy_from_slice(&ctx.rng.bytes(16));
             let mut rv = [0u8; 4];
             rv.copy_from_slice(&ctx.rng.bytes(4));
-            let c = HideCase { a, secret: val::secret(&mut ctx.rng), rv, lp, ap };
+            let mut secret = val::secret(&mut ctx.rng);
+            secret.truncate(64); // see C13: per-block cost grows with the secret
+            let c = HideCase { a, secret, rv, lp, ap };
             ctx.rep.bucket("hide.giant");
             judge_hide(ctx, &c);
             // and the reference's own output must be revealed identically by the crate
